@@ -49,10 +49,27 @@ theorem RdfModel.C10.Witness.name_injective : Function.Injective Witness.name :=
   have := congrArg (fun l => List.foldl (fun a c => a * 10 + (c - 0x30)) 0 l) h
   simpa [Witness.name, key] using this
 
+theorem RdfModel.C10.Witness.name_nonempty : ∀ n, Witness.name n ≠ [] := by
+  intro n h
+  have : (natDigits n).length = 0 := by rw [show natDigits n = Witness.name n from rfl, h]; rfl
+  unfold natDigits at this
+  have aux : ∀ (fuel n : Nat) (acc : List Nat), n < fuel → 0 < (digitsAux fuel n acc).length := by
+    intro fuel
+    induction fuel with
+    | zero => intro n acc h; omega
+    | succ f ih =>
+      intro n acc h
+      unfold digitsAux
+      split
+      · simp
+      · exact ih _ _ (by omega)
+  have := aux (n + 1) n [] (by omega)
+  omega
+
 /-- the fragment theorem at the witness -/
 theorem RdfModel.C10.Witness.denotes :
     ∃ out, toRdf true none (write Witness.name Witness.d Witness.ch) = some out ∧ Spec.IsoQ out Witness.d :=
-  write_denotes Witness.name Witness.name_injective Witness.d Witness.wf Witness.ch
+  write_denotes Witness.name Witness.name_injective Witness.name_nonempty Witness.d Witness.wf Witness.ch
 
 /-- the encoder theorem at the witness -/
 theorem RdfModel.C10.Witness.roundtrip :
